@@ -635,6 +635,28 @@ Ltac proj_cbn_in H :=
        sh_njobs sh_workers sh_shutdown sh_outq sh_wpc sh_apc sh_sock_closed sh_exited sh_hist
        set_hist slog set_reader set_rpc set_pool set_out set_misc put submit set_worker] in H.
 
+(* the close sequence, transition by transition *)
+Lemma step_r_pill s : sh_exited s = false -> sh_rpc s = RCl1 ->
+  step s ThReader (APut OStopPill) = Some (set_rpc (put s ThReader OStopPill) RCl2).
+Proof. intros Hex Hr. unfold step. rewrite Hex, Hr. reflexivity. Qed.
+Lemma step_r_join s : sh_exited s = false -> sh_rpc s = RCl2 ->
+  step s ThReader AJoin =
+  if writer_dead s
+  then Some (slog (set_rpc (set_pool s (sh_jobs s) (sh_njobs s) (sh_workers s) true) RCl3) [EPoolShutdown ThReader])
+  else None.
+Proof. intros Hex Hr. unfold step. rewrite Hex, Hr. reflexivity. Qed.
+Lemma step_r_wait s : sh_exited s = false -> sh_rpc s = RCl3 ->
+  step s ThReader AShutdownWait = if pool_drained s then Some (set_rpc s RCl4) else None.
+Proof. intros Hex Hr. unfold step. rewrite Hex, Hr. reflexivity. Qed.
+Lemma step_r_sock s : sh_exited s = false -> sh_rpc s = RCl4 ->
+  step s ThReader ASockClose =
+  Some (settle (slog (set_misc s (sh_start s) (sh_stop s) (sh_apc s) true (sh_exited s)) [ESockClosed ThReader])
+               (sh_todo s)).
+Proof. intros Hex Hr. unfold step. rewrite Hex, Hr. reflexivity. Qed.
+
+Lemma step_exited s th a s' : step s th a = Some s' -> sh_exited s = false.
+Proof. unfold step. destruct (sh_exited s); [discriminate|reflexivity]. Qed.
+
 Theorem close_sequence_reader : forall s s1 s2 s3 s4,
   sh_rpc s = RCl1 ->
   step s ThReader (APut OStopPill) = Some s1 -> step s1 ThReader AJoin = Some s2 ->
@@ -642,15 +664,15 @@ Theorem close_sequence_reader : forall s s1 s2 s3 s4,
   sh_rpc s1 = RCl2 /\ writer_dead s1 = true /\ sh_shutdown s2 = true /\ pool_drained s2 = true /\ sh_sock_closed s4 = true.
 Proof.
   intros s s1 s2 s3 s4 Hr H1 H2 H3 H4.
-  unfold step in H1. destruct (sh_exited s) eqn:Hex; [discriminate H1|]. rewrite Hr in H1.
-  injection H1 as <-.
-  unfold step in H2. proj_cbn_in H2. rewrite Hex in H2.
-  match type of H2 with (if ?b then _ else _) = _ => destruct b eqn:Hwd; [|discriminate H2] end.
+  pose proof (step_exited _ _ _ _ H1) as Hex.
+  rewrite (step_r_pill s Hex Hr) in H1. injection H1 as <-.
+  rewrite step_r_join in H2; [|exact Hex|reflexivity].
+  destruct (writer_dead (set_rpc (put s ThReader OStopPill) RCl2)) eqn:Hwd; [|discriminate H2].
   injection H2 as <-.
-  unfold step in H3. proj_cbn_in H3. rewrite Hex in H3.
+  rewrite step_r_wait in H3; [|exact Hex|reflexivity].
   match type of H3 with (if ?b then _ else _) = _ => destruct b eqn:Hpd; [|discriminate H3] end.
   injection H3 as <-.
-  unfold step in H4. proj_cbn_in H4. rewrite Hex in H4. injection H4 as <-.
+  rewrite step_r_sock in H4; [|exact Hex|reflexivity]. injection H4 as <-.
   repeat split; try assumption; try reflexivity.
   rewrite (st_closed _ _ (settle_sett _ _)). reflexivity.
 Qed.
@@ -728,6 +750,28 @@ Proof.
   destruct ret, io; cbn in H; try discriminate H; injection H as <-; cbn; auto.
 Qed.
 
+Lemma step_a_start s : sh_exited s = false -> sh_apc s = ADone -> Nat.leb 3 (sh_start s) = true ->
+  step s ThApp AStart =
+  Some (slog (set_misc s (sh_start s) true ACl1 (sh_sock_closed s) (sh_exited s)) [EStopFlag ThApp]).
+Proof. intros Hex Ha Hle. unfold step. rewrite Hex, Ha, Hle. reflexivity. Qed.
+Lemma step_a_pill s : sh_exited s = false -> sh_apc s = ACl1 ->
+  step s ThApp (APut OStopPill) =
+  Some (set_misc (put s ThApp OStopPill) (sh_start s) (sh_stop s) ACl2 (sh_sock_closed s) (sh_exited s)).
+Proof. intros Hex Ha. unfold step. rewrite Hex, Ha. reflexivity. Qed.
+Lemma step_a_join s : sh_exited s = false -> sh_apc s = ACl2 -> sh_wpc s = WDead ->
+  step s ThApp AJoin =
+  Some (slog (set_misc (set_pool s (sh_jobs s) (sh_njobs s) (sh_workers s) true)
+                       (sh_start s) (sh_stop s) ACl3 (sh_sock_closed s) (sh_exited s)) [EPoolShutdown ThApp]).
+Proof. intros Hex Ha Hw. unfold step, writer_dead. rewrite Hex, Ha, Hw. reflexivity. Qed.
+Lemma step_a_wait s : sh_exited s = false -> sh_apc s = ACl3 -> pool_drained s = true ->
+  step s ThApp AShutdownWait =
+  Some (set_misc s (sh_start s) (sh_stop s) ACl4 (sh_sock_closed s) (sh_exited s)).
+Proof. intros Hex Ha Hp. unfold step. rewrite Hex, Ha, Hp. reflexivity. Qed.
+Lemma step_a_sock s : sh_exited s = false -> sh_apc s = ACl4 ->
+  step s ThApp ASockClose =
+  Some (slog (set_misc s (sh_start s) (sh_stop s) ADone true (sh_exited s)) [ESockClosed ThApp]).
+Proof. intros Hex Ha. unfold step. rewrite Hex, Ha. reflexivity. Qed.
+
 Theorem reclose_possible : forall s,
   sh_exited s = false -> sh_apc s = ADone -> (3 <= sh_start s)%nat -> inv_closed s = true -> sh_sock_closed s = true ->
   exists s5, run s [(ThApp, AStart); (ThApp, APut OStopPill); (ThApp, AJoin); (ThApp, AShutdownWait); (ThApp, ASockClose)] = Some s5 /\
@@ -739,18 +783,16 @@ Proof.
   apply andb_true_iff in Hic. destruct Hic as [Hwd Hpd].
   assert (Hw : sh_wpc s = WDead).
   { unfold writer_dead in Hwd. destruct (sh_wpc s); try discriminate Hwd. reflexivity. }
-  apply pool_drained_iff in Hpd. destruct Hpd as [Hj Hx].
   apply Nat.leb_le in Hle.
   eexists. split.
   - cbn [run].
-    unfold step at 1. rewrite Hex, Hapc, Hle.
-    unfold step at 1. proj_cbn. rewrite Hex.
-    unfold step at 1. proj_cbn. rewrite Hex. unfold writer_dead. proj_cbn. rewrite Hw.
-    unfold step at 1. proj_cbn. rewrite Hex. unfold pool_drained. proj_cbn. fold is_exited.
-    rewrite Hj, Hx. cbn [is_nil andb].
-    unfold step at 1. proj_cbn. rewrite Hex.
+    rewrite (step_a_start s Hex Hapc Hle).
+    rewrite step_a_pill; [|exact Hex|reflexivity].
+    rewrite step_a_join; [|exact Hex|reflexivity|exact Hw].
+    rewrite step_a_wait; [|exact Hex|reflexivity|exact Hpd].
+    rewrite step_a_sock; [|exact Hex|reflexivity].
     reflexivity.
-  - split; [reflexivity|]. cbn. exact Hex.
+  - split; [reflexivity|]. exact Hex.
 Qed.
 
 Print Assumptions inv_closed_reachable.
